@@ -7,6 +7,7 @@ import numpy as np
 import common
 import gen
 import refsym
+import replaylib as rl
 
 IMPORTS = 'From SV Require Import Base.Sym Base.Tensor Model.SymInst Model.Sectors Model.Array.\n'
 SYMS = ['Z2', 'U1', 'Z2Z2', 'U1U1', 'Z4']
@@ -179,7 +180,8 @@ def run(ctx):
                 except Exception as e:
                     if x.blocks:
                         found.append({'op': 'fuse', 'mode': mode, 'cache': cache, 'symmetry': sym, 'x': describe(x), 'groups': groups,
-                                      'raised': '%s: %s' % (type(e).__name__, e)})
+                                      'raised': '%s: %s' % (type(e).__name__, e),
+                                      'replay': rl.record('fuse', {'x': x}, {'symmetry': sym, 'groups': groups})})
                 finally:
                     ac._fuseinfo_cache_maxsize = old
         if not results:
@@ -188,10 +190,12 @@ def run(ctx):
         for key, y in results.items():
             if not same_blocks(y, y0):
                 found.append({'op': 'fuse', 'symmetry': sym, 'x': describe(x), 'groups': groups,
-                              'error': 'strategy/cache setting %r gives a different result than insert+cache' % (key,)})
+                              'error': 'strategy/cache setting %r gives a different result than insert+cache' % (key,),
+                              'replay': rl.record('fuse', {'x': x}, {'symmetry': sym, 'groups': groups})})
         bad = relocation_oracle(sym, x, y0, groups) if x.blocks else None
         if bad:
-            found.append({'op': 'fuse', 'symmetry': sym, 'x': describe(x), 'groups': groups, **bad})
+            found.append({'op': 'fuse', 'symmetry': sym, 'x': describe(x), 'groups': groups, **bad,
+                          'replay': rl.record('fuse', {'x': x}, {'symmetry': sym, 'groups': groups})})
         # the same groups on the conjugated array, fuse cache warm from the call above
         if x.blocks:
             try:
@@ -209,9 +213,11 @@ def run(ctx):
                     badc = {'error': 'warm-cache fuse of the conjugated array differs from the cache-free result'}
                 if badc:
                     found.append({'op': 'fuse (after fusing the un-conjugated array, warm cache)', 'symmetry': sym, 'x': describe(xc),
-                                  'groups': groups, **badc})
+                                  'groups': groups, **badc,
+                                  'replay': rl.record('fuse_conj', {'x': x}, {'symmetry': sym, 'groups': groups})})
             except Exception as e:
-                found.append({'op': 'fuse(conj)', 'symmetry': sym, 'x': describe(x), 'groups': groups, 'raised': '%s: %s' % (type(e).__name__, e)})
+                found.append({'op': 'fuse(conj)', 'symmetry': sym, 'x': describe(x), 'groups': groups, 'raised': '%s: %s' % (type(e).__name__, e),
+                              'replay': rl.record('fuse_conj', {'x': x}, {'symmetry': sym, 'groups': groups})})
         nvalid = len(refsym.valid_sectors(sym, [sorted(ix.chargemap) for ix in x.indices], [ix.dual for ix in x.indices], x.charge)) if not nested else None
         sparse = nvalid is not None and 0 < len(x.blocks) < nvalid
         if sparse:
@@ -252,13 +258,15 @@ def run(ctx):
                         if s not in xt.blocks and np.any(np.asarray(b) != 0):
                             errs = {'error': 'extra block %r after unfusing is not zero' % (s,)}
             if errs:
-                found.append({'op': 'fuse+unfuse', 'symmetry': sym, 'x': describe(x), 'groups': groups, **errs})
+                found.append({'op': 'fuse+unfuse', 'symmetry': sym, 'x': describe(x), 'groups': groups, **errs,
+                              'replay': rl.record('fuse_unfuse', {'x': x}, {'symmetry': sym, 'groups': groups})})
             if nested:
                 za = y0.unfuse_all()
                 exprs.append('aarray_eqb %s (a_unfuse_all %s %s) %s' % (A, A, gen.garray(y0, sym, ring), gen.garray(za, sym, ring)))
                 meta.append(('unfuse_all', sym, k, str(groups)))
         except Exception as e:
-            found.append({'op': 'unfuse', 'symmetry': sym, 'x': describe(x), 'groups': groups, 'raised': '%s: %s' % (type(e).__name__, e)})
+            found.append({'op': 'unfuse', 'symmetry': sym, 'x': describe(x), 'groups': groups, 'raised': '%s: %s' % (type(e).__name__, e),
+                          'replay': rl.record('fuse_unfuse', {'x': x}, {'symmetry': sym, 'groups': groups})})
         if k < 2:
             ctx.sample({'symmetry': sym, 'groups': groups, 'x': describe(x)})
     bad_idx = common.run_cases(ctx, 'fuse', IMPORTS, '', exprs, shard=40)
@@ -271,10 +279,11 @@ def run(ctx):
         tie_broken += ['Model.%s disagrees with the implementation (symmetry %s, case %d, groups %s)' % meta[i] for i in bad_idx[:10]]
         ctx.extra['disagreeing_cases'] = [exprs[i][:3000] for i in bad_idx[:2]]
     for f in found[:5]:
-        ctx.violation('%s violates exact re-indexing' % f['op'], {'oracle': 'element relocation by the result\'s own sub-index table; round trip; insert == concat; cache on == off', **f})
+        ctx.violation('%s violates exact re-indexing' % f['op'], {'oracle': 'element relocation by the result\'s own sub-index table; round trip; insert == concat; cache on == off', **f, 'run': rl.run_info(ctx)})
     ctx.broken += tie_broken
     if (not ok or tie_broken) and not found:
-        ctx.violation('proof obligation or tie of C05 no longer checks', {'broken': ctx.broken}, found_input=False)
+        ctx.violation('proof obligation or tie of C05 no longer checks',
+                      {'broken': ctx.broken, 'replay': rl.record('proof_phase')}, found_input=False)
     ctx.extra['case_classes'] = stats
     ctx.extra['tie'] = {'model_cases': len(exprs)}
     ctx.coverage['rule'] = ('random abelian arrays (rank 2-4, five symmetries, random dualness/charge, any subset of valid sectors stored, real and '
@@ -283,7 +292,113 @@ def run(ctx):
                             'already-fused array; distinct by (symmetry, stored sectors, groups)')
 
 
+# ------------------------------------------------------------------ replay
+def _fuse_all_ways(x, groups):
+    """fuse with both strategies, cache on and off; returns (results, failures)"""
+    import symmray.abelian_core as ac
+    results, fails = {}, []
+    for mode in ('insert', 'concat'):
+        for cache in (True, False):
+            old = ac._fuseinfo_cache_maxsize
+            if not cache:
+                ac._fuseinfo_cache_maxsize = 0
+            try:
+                results[(mode, cache)] = x.fuse(*groups, mode=mode)
+            except Exception as e:
+                if x.blocks:
+                    fails.append({'what': 'x.fuse(*%r, mode=%r) with the fuse cache %s raises' % (groups, mode, 'on' if cache else 'off'),
+                                  'expected': 'the fused array', 'got': '%s: %s' % (type(e).__name__, e)})
+            finally:
+                ac._fuseinfo_cache_maxsize = old
+    return results, fails
+
+
+def _groups(pr):
+    return [tuple(g) for g in pr['groups']]
+
+
+def _rp_fuse(sr, ins, pr, r):
+    """all four (strategy, cache) settings agree and the element relocation oracle accepts the result"""
+    x, groups, sym = ins['x'], _groups(pr), pr['symmetry']
+    results, fails = _fuse_all_ways(x, groups)
+    if not results:
+        return fails
+    y0 = results[('insert', True)] if ('insert', True) in results else next(iter(results.values()))
+    for key, y in results.items():
+        if not same_blocks(y, y0):
+            fails.append({'what': 'strategy/cache setting %r gives a different result than insert+cache' % (key,),
+                          'expected': describe(y0)['blocks'], 'got': describe(y)['blocks']})
+    if x.blocks:
+        fails += rl.fail_from(relocation_oracle(sym, x, y0, groups), 'x.fuse(*%r): element relocation by the result\'s own sub-index table' % (groups,))
+    return fails
+
+
+def _rp_fuse_conj(sr, ins, pr, r):
+    """fuse x (warms the cache), then the same groups on conj(x): relocation oracle; warm cache == no cache"""
+    import symmray.abelian_core as ac
+    x, groups, sym = ins['x'], _groups(pr), pr['symmetry']
+    _fuse_all_ways(x, groups)
+    try:
+        xc = x.conj()
+        yc = xc.fuse(*groups)
+        badc = relocation_oracle(sym, xc, yc, groups)
+        old = ac._fuseinfo_cache_maxsize
+        ac._fuseinfo_cache_maxsize = 0
+        try:
+            yc0 = xc.fuse(*groups)
+        finally:
+            ac._fuseinfo_cache_maxsize = old
+        if badc is None and not same_blocks(yc, yc0):
+            badc = {'error': 'warm-cache fuse of the conjugated array differs from the cache-free result',
+                    'expected': describe(yc0)['blocks'], 'got': describe(yc)['blocks']}
+    except Exception as e:
+        badc = {'raised': '%s: %s' % (type(e).__name__, e)}
+    return rl.fail_from(badc, 'x.conj().fuse(*%r) after x.fuse(*%r)' % (groups, groups))
+
+
+def _rp_fuse_unfuse(sr, ins, pr, r):
+    """unfusing returns every original block bit-for-bit; extra blocks are exactly zero"""
+    x, groups = ins['x'], _groups(pr)
+    nd = x.ndim
+    results, fails = _fuse_all_ways(x, groups)
+    if not results:
+        return fails
+    y0 = results[('insert', True)] if ('insert', True) in results else next(iter(results.values()))
+    errs = None
+    try:
+        z = y0.copy()
+        position = min(min(g) for g in groups)
+        for g in reversed(range(len(groups))):
+            if len(groups[g]) > 1:
+                z = z.unfuse(position + g)
+        grouped = {ax for ga in groups for ax in ga}
+        perm = [ax for ax in range(position) if ax not in grouped] + [a for ga in groups for a in ga] + \
+               [ax for ax in range(position, nd) if ax not in grouped]
+        xt = x.transpose(tuple(perm))
+        if z.ndim != xt.ndim or any(i.chargemap != j.chargemap or i.dual != j.dual or (i.subinfo is None) != (j.subinfo is None)
+                                    for i, j in zip(z.indices, xt.indices)):
+            errs = {'error': 'unfusing does not restore the index structure'}
+        else:
+            for s, b in xt.blocks.items():
+                if s not in z.blocks or not np.array_equal(np.asarray(z.blocks[s]), np.asarray(b)):
+                    errs = {'error': 'original block %r not restored bit-for-bit' % (s,), 'expected': np.asarray(b).tolist(),
+                            'got': np.asarray(z.blocks[s]).tolist() if s in z.blocks else 'no such block'}
+                    break
+            else:
+                for s, b in z.blocks.items():
+                    if s not in xt.blocks and np.any(np.asarray(b) != 0):
+                        errs = {'error': 'extra block %r after unfusing is not zero' % (s,), 'expected': 'zeros', 'got': np.asarray(b).tolist()}
+        if errs is None and any(ix.subinfo is not None for ix in x.indices):
+            y0.unfuse_all()
+    except Exception as e:
+        errs = {'raised': '%s: %s' % (type(e).__name__, e)}
+    return rl.fail_from(errs, 'x.fuse(*%r) then unfuse' % (groups,))
+
+
+ORACLES = {'fuse': _rp_fuse, 'fuse_conj': _rp_fuse_conj, 'fuse_unfuse': _rp_fuse_unfuse}
+
+
 def replay(path):
-    r = json.load(open(path))
-    print(json.dumps(r, indent=1)[:4000])
-    return 0
+    """re-run the recorded failing case against $SYMMRAY_REPO: 1 = still fails, 0 = passes now"""
+    import sys
+    return rl.dispatch(path, 'C05', ORACLES, sys.modules[__name__])
